@@ -304,6 +304,8 @@ class OptInterp:
                             env[(base[0], base[1] + (i,))] = self.val(env, o)
                     else:
                         self.assign(env, ins.place, "?")
+                elif rk == "binop" and ins.id in self.sources:
+                    self.assign(env, ins.place, self.sources[ins.id])
                 elif rk == "unop" and ins.rv.get("op") == "Not":
                     v = self.val(env, ins.ops[0])
                     self.assign(env, ins.place, {"T": "F", "F": "T"}.get(v, "?"))
